@@ -10,7 +10,7 @@ Shared line-protocol front end for the engine-level drivers (C03, C19).
   `ev cancel_orders <filter>` | `ev close_positions <filter>`
   `ev trading <on|off>`
   `ev snap i c q p K a b d` | `ev resp i c ok|err`      (C01 syntax)
-  `ev fill i <B|S> qty` | `ev flat i` | `ev price i p`
+  `ev fill i <B|S> qty` | `ev flat i` | `ev price i p` | `ev reduce i` (partial reduction by half)
   `ev other <mktre|accre|bal> <exchange>`   market / account disconnect notice, balance snapshot
 requests:  `c:<ex>:<ins>:<cid>[:<order id>]`   `o:<ex>:<ins>:<cid>:<B|S>:<price>:<qty>`
 filters :  `none` | `ex:0,1` | `ins:0,2` | `und:0-1,2-1`
@@ -156,6 +156,20 @@ def parseEvent (toks : List String) : Option Event :=
   | ["other", _, _] => some (.update .other)
   | _ => none
 
+/-- `ev reduce i`: a fill on the opposite side for HALF of the open quantity (a partial reduction: the
+position keeps its side, `quantity_abs` halves while `quantity_abs_max` stays). Needs the state, so
+it is resolved here; every other event is `parseEvent`. -/
+def resolveEvent (e : Eng) (toks : List String) : Option Event :=
+  match toks with
+  | ["reduce", i] =>
+    i.toNat?.map fun i =>
+      match e.instruments[i]? with
+      | some s => (match s.position with
+        | some (side, q) => Event.update (.position i side (q / 2))
+        | none => Event.update (.flat i))
+      | none => Event.update (.flat i)
+  | _ => parseEvent toks
+
 def Event.instrumentsInRange (n : Nat) : Event → Bool
   | .update (.order i _) => i < n
   | .update (.position i _ _) => i < n
@@ -263,7 +277,7 @@ def model : Drv St where
       | some (cs, os) => ({ s with algoC := cs, algoO := os }, ["algo-set"])
       | none => (s, ["bad-op"])
     | "ev" :: rest =>
-      match parseEvent rest with
+      match resolveEvent s.eng rest with
       | none => (s, ["bad-op"])
       | some ev =>
         let ev := fixExchange s.eng ev
